@@ -87,6 +87,48 @@ impl Endpoint {
 		}
 	}
 
+	/// as `ws_exchange`, but `msg` arrives while the connection's outbound side is saturated: a small pipe, a message buffer
+	/// of one, and three calls with large results that the peer has not read yet (tower / low-level entry points only)
+	pub async fn ws_exchange_backpressure(&self, msg: &[u8], probe_id: &str) -> WsOutcome {
+		let probe = format!(r#"{{"jsonrpc":"2.0","id":"{probe_id}","method":"echo"}}"#);
+		let pid = serde_json::json!(probe_id);
+		let peer = match self {
+			Endpoint::Tower(rig) => {
+				let (stop, handle) = stop_channel();
+				let svc = rig.svc(stop.clone());
+				WsPeer::connect_with_pipe(svc, stop, handle, &[], 32 * 1024).await
+			}
+			Endpoint::Low { rig, guard } => {
+				let (stop, handle) = stop_channel();
+				let svc = LowSvc { cfg: rig.cfg.clone(), methods: rig.methods.clone(), guard: guard.clone(), stop: stop.clone() };
+				WsPeer::connect_with_pipe(svc, stop, handle, &[], 32 * 1024).await
+			}
+			_ => return self.ws_exchange(msg, probe_id).await,
+		};
+		let mut ws = match peer {
+			Ok(w) => w,
+			Err(e) => return WsOutcome { frames: vec![], probe_ok: false, connect_err: Some(e) },
+		};
+		for j in 0..3 {
+			ws.send_text(&format!(r#"{{"jsonrpc":"2.0","id":{},"method":"big","params":[150000,"ascii"]}}"#, 900 + j)).await;
+		}
+		// let the three results pile up against the unread pipe (a shorter wait only makes the case milder, never wrong)
+		tokio::time::sleep(Duration::from_millis(40)).await;
+		let _ = match std::str::from_utf8(msg) {
+			Ok(t) => ws.send_text(t).await,
+			Err(_) => ws.send_binary(msg).await,
+		};
+		ws.send_text(&probe).await;
+		let (mut frames, hit) = ws.recv_until(WAIT, |v| v["id"] == pid).await;
+		let (rest, _clean) = ws.stop_and_drain(WAIT).await;
+		frames.extend(rest);
+		let frames = frames
+			.into_iter()
+			.filter(|f| serde_json::from_str::<Value>(f).map(|v| v["id"] != pid && !(900..903).contains(&v["id"].as_u64().unwrap_or(0))).unwrap_or(true))
+			.collect();
+		WsOutcome { frames, probe_ok: hit, connect_err: None }
+	}
+
 	/// one WebSocket connection: send `msg` (text if valid UTF-8 else binary), then a probe call, stop, drain to EOF
 	pub async fn ws_exchange(&self, msg: &[u8], probe_id: &str) -> WsOutcome {
 		let probe = format!(r#"{{"jsonrpc":"2.0","id":"{probe_id}","method":"echo"}}"#);
